@@ -95,6 +95,8 @@ func c14IsBad(s string) bool {
 // sent to several servers at once).
 type C14Who struct {
 	Nonce int64
+	// FailAddr: the server with this address answers with an error instead
+	FailAddr string
 }
 type C14WhoReply struct {
 	Nonce int64
@@ -162,6 +164,9 @@ func (s *c14Service) keep(m *C14Keep) (*C14Reply, error) {
 
 // who is not counted in c14Calls: how many servers are asked depends on the schedule.
 func (s *c14Service) who(m *C14Who) (*C14WhoReply, error) {
+	if m.FailAddr != "" && m.FailAddr == string(s.ServerIdentity().Address) {
+		return nil, errors.New("this node refuses")
+	}
 	return &C14WhoReply{Nonce: m.Nonce, Addr: string(s.ServerIdentity().Address)}, nil
 }
 func (s *c14Service) echo(m *C14Echo) (*C14Reply, error) {
